@@ -78,6 +78,7 @@ Fields(hc) ==
     [] hc = "copy"     -> <<F("a", "canon", "p1")>>
     [] hc = "collide"  -> <<F("uid", "lower", "evil"), F("a", "canon", "p1"), F("org", "canon", "evil2")>>
     [] hc = "copysens" -> <<F("authorization", "canon", "s1"), F("cookie", "lower", "s3"), F("uid", "upper", "evil")>>
+    [] hc = "sigcol"   -> <<F("sig", "canon", "p1"), F("sigts", "canon", "p2"), F("a", "canon", "p3")>>   \* the sender uses the names of the delivery signature headers
     [] hc = "hmaxm1"   -> <<F("a", "canon", "p1"), F("pad", "canon", "pad")>>
     [] hc = "hmax"     -> <<F("a", "canon", "p1"), F("pad", "canon", "pad")>>
     [] hc = "hmaxp1"   -> <<F("a", "canon", "p1"), F("pad", "canon", "pad")>>
@@ -89,12 +90,12 @@ AuthFields(hc) ==
     [] hc = "copysens" -> <<F("uid", "lower", "u1"), F("org", "canon", "o1")>>
     [] OTHER           -> <<>>
 
-HeaderClasses == {"none", "plain", "case", "repeat", "repcase", "values", "values2", "pvals", "sens", "senslow", "sensup",
+HeaderClasses == {"sigcol", "none", "plain", "case", "repeat", "repcase", "values", "values2", "pvals", "sens", "senslow", "sensup",
                   "sensmix", "near", "copy", "collide", "copysens", "hmaxm1", "hmax", "hmaxp1"}
 CopyHCs    == {"copy", "collide", "copysens"}            \* need a route with auth forward + copy_headers
 LimHCs     == {"hmaxm1", "hmax", "hmaxp1"}               \* need a route with a small max_headers
 \* a published item carries a JSON object: one value per name, names written in canonical form
-PublishHCs == {"none", "plain", "values", "pvals", "hmaxm1", "hmax", "hmaxp1"}
+PublishHCs == {"none", "plain", "values", "pvals", "sigcol", "hmaxm1", "hmax", "hmaxp1"}
 
 \* Payload classes.  The harness owns the bytes; the model only knows the
 \* relation of the size to the limit of the route the message is sent to.
@@ -117,10 +118,22 @@ FramePCs    == {"empty", "all256", "maxm1", "max", "maxp1", "big", "dmax", "dmax
 \*   single <<M>>     after <<S+, M>>     before <<M, S->>     middle <<S+, M, S->>
 PubShapes == {"single", "after", "before", "middle"}
 
+\* Ways in besides ingress, all "publish": the global Admin API path, the endpoint-scoped path of a managed route
+\* (/applications/{a}/endpoints/{e}/messages/publish), and the MCP tool messages_publish (direct SQLite mode on the
+\* SQLite backend, admin-proxy mode on the memory backend).
+PubSrcs == {"publish", "mpublish", "mcp"}
+\* Features of a deliver route: fan = two deliver targets (ingress stores one message per target, each is delivered to
+\* its own target); sg = the target is configured with `sign hmac`.  They vary around a few content classes only.
+FeatPCs == {"text", "all256", "empty", "big", "max"}
+FeatHCs == {"plain", "sigcol", "none", "sensmix"}
+
 \* an input = everything that is chosen before the message is sent
 ValidInput(i) ==
-  /\ i.src = "publish" => i.hc \in PublishHCs /\ i.via = "api" /\ ~i.fwd /\ i.pc \notin WirePCs /\ i.pb \in PubShapes
+  /\ i.src \in PubSrcs => i.hc \in PublishHCs /\ i.via = "api" /\ ~i.fwd /\ i.pc \notin WirePCs /\ i.pb \in PubShapes
   /\ i.src = "ingress" => i.via \in IngressVias /\ i.pb = "single"
+  /\ i.fan => i.mode = "push" /\ i.src = "ingress"
+  /\ i.sg => i.mode = "push"
+  /\ (i.fan \/ i.sg) => i.pc \in FeatPCs /\ i.hc \in FeatHCs
   /\ i.hc \in CopyHCs => i.fwd
   /\ (i.pc \in LimPCs \/ i.hc \in LimHCs) => i.lim
   /\ i.pc \in DefPCs => ~i.lim
@@ -128,5 +141,5 @@ ValidInput(i) ==
 
 Over(i) == i.pc \in OverPCs \/ i.hc \in OverHCs
 
-ExpectedStored(i) == Stored(i.src, Fields(i.hc), CopyNames, IF i.fwd THEN AuthFields(i.hc) ELSE <<>>)
+ExpectedStored(i) == Stored(IF i.src \in PubSrcs THEN "publish" ELSE i.src, Fields(i.hc), CopyNames, IF i.fwd THEN AuthFields(i.hc) ELSE <<>>)
 =============================================================================
